@@ -2,6 +2,7 @@ SPECIFICATION GSpecT
 CONSTANTS
   STALL = {}
   LateResponseOK = TRUE
+  NoTimeout = FALSE
   STALLOFF = {0}
   REQ = {1, 2, 3}
   T = 100
